@@ -9,6 +9,8 @@ import (
 	"fmt"
 	"sort"
 	"strings"
+	"testing/synctest"
+	"time"
 
 	quic "github.com/refraction-networking/uquic"
 	"github.com/refraction-networking/uquic/internal/protocol"
@@ -36,13 +38,20 @@ func runConnIDs(w *bufio.Writer, seed uint64, n int, _ []string) {
 	c := &cidRun{w: w, dist: map[string]int{}}
 	// scripted witnesses first (they also document the known finding)
 	c.mgrWitnesses()
-	nm := n * 6 / 10
+	nm := n * 5 / 10
+	ng := n * 3 / 10
 	for i := 0; i < nm; i++ {
 		c.mgrCase(r.Fork(), i)
 	}
-	for i := 0; i < n-nm; i++ {
+	for i := 0; i < ng; i++ {
 		c.genCase(r.Fork(), i)
 	}
+	// the routing table runs on virtual time (time.AfterFunc inside ReplaceWithClosed)
+	synctest.Run(func() {
+		for i := 0; i < n-nm-ng; i++ {
+			c.routeCase(r.Fork(), i)
+		}
+	})
 	keys := make([]string, 0, len(c.dist))
 	for k := range c.dist {
 		keys = append(keys, k)
@@ -601,6 +610,17 @@ func (c *cidRun) mgrWitnesses() {
 	s.do(add(5, 4))
 	s.do(add(4, 4)); s.do(add(2, 0)); s.do(add(6, 4)); s.do(add(7, 5))
 	s.do(&mOp{kind: "close"})
+	s.emit()
+	// W8: u_conn_id_manager.go: SetConnectionIDLimit is a no-op, the enforced limit stays MaxActiveConnectionIDs
+	s = c.newMgrSession(init, "W8")
+	s.do(&mOp{kind: "setlimit", seq: 8})
+	var last *mOp
+	for q := uint64(1); q <= maxActive; q++ {
+		last = s.do(add(q, 0))
+	}
+	if last.cls == quic.VerifLimitErr {
+		fmt.Fprintf(c.w, "INFO\tu_conn_id_manager.go: after SetConnectionIDLimit(8) the connection ID number %d is still refused with CONNECTION_ID_LIMIT_ERROR (enforced limit %d; advertised-vs-enforced is property C12)\n", maxActive+1, maxActive)
+	}
 	s.emit()
 	// W6: zero-length connection IDs
 	s = c.newMgrSession(nil, "W6")
@@ -1307,4 +1327,273 @@ func (c *cidRun) genCase(r *u.Rng, idx int) {
 		s.do(&gOp{kind: "replace", local: false, t: int64(r.Range(1, 5000))})
 	}
 	s.emit()
+}
+
+// ---------------------------------------------------------------------------------
+// packetHandlerMap + closed-connection stand-ins
+// ---------------------------------------------------------------------------------
+
+type rOp struct {
+	kind   string // add addwith remove replace advance addtok remtok deliver
+	cid    []byte
+	cid2   []byte
+	ids    [][]byte
+	n      int
+	local  bool
+	d      int64
+	tok    [16]byte
+	flag   bool
+	rk     int
+	ref    int
+	sent   int
+	routes []quic.VerifRoute
+	toks   [][16]byte
+	tokC   []int
+}
+
+func (o *rOp) coqOp() string {
+	switch o.kind {
+	case "add":
+		return u.App("RAdd", hxs(o.cid), u.Z(int64(o.n)))
+	case "addwith":
+		return u.App("RAddWith", hxs(o.cid), hxs(o.cid2), u.Z(int64(o.n)))
+	case "remove":
+		return u.App("RRemove", hxs(o.cid))
+	case "replace":
+		ids := make([]string, len(o.ids))
+		for i, b := range o.ids {
+			ids[i] = hxs(b)
+		}
+		return u.App("RReplace", u.List(ids), u.B(o.local), u.Z(o.d))
+	case "advance":
+		return u.App("RAdvance", u.Z(o.d))
+	case "addtok":
+		return u.App("RAddTok", tokNum(o.tok), u.Z(int64(o.n)))
+	case "remtok":
+		return u.App("RRemTok", tokNum(o.tok))
+	case "deliver":
+		return u.App("RDeliver", hxs(o.cid))
+	}
+	panic("bad rop")
+}
+
+func (o *rOp) coqObs() string {
+	rs := make([]string, len(o.routes))
+	for i, r := range o.routes {
+		rs[i] = u.Pair(hxs(r.CID), u.Z(int64(r.Kind)), u.Z(int64(r.Ref)))
+	}
+	ts := make([]string, len(o.toks))
+	for i, t := range o.toks {
+		ts[i] = u.Pair(tokNum(t), u.Z(int64(o.tokC[i])))
+	}
+	return u.App("RO", u.B(o.flag), u.Z(int64(o.rk)), u.Z(int64(o.ref)), u.Z(int64(o.sent)), u.List(rs), u.List(ts))
+}
+
+func (o *rOp) human() string {
+	switch o.kind {
+	case "add":
+		return fmt.Sprintf("Add(%x,conn%d)=>%v", o.cid, o.n, o.flag)
+	case "addwith":
+		return fmt.Sprintf("AddWithConnID(%x,%x,conn%d)=>%v", o.cid, o.cid2, o.n, o.flag)
+	case "remove":
+		return fmt.Sprintf("Remove(%x)", o.cid)
+	case "replace":
+		return fmt.Sprintf("ReplaceWithClosed(%x,local=%v,%dns)", o.ids, o.local, o.d)
+	case "advance":
+		return fmt.Sprintf("+%dns", o.d)
+	case "addtok":
+		return fmt.Sprintf("AddResetToken(%x,conn%d)", o.tok[8:], o.n)
+	case "remtok":
+		return fmt.Sprintf("RemoveResetToken(%x)", o.tok[8:])
+	case "deliver":
+		return fmt.Sprintf("packet(%x)=>kind%d/%d sent%d", o.cid, o.rk, o.ref, o.sent)
+	}
+	return o.kind
+}
+
+// routeCase: must be called inside a synctest bubble.
+func (c *cidRun) routeCase(r *u.Rng, idx int) {
+	v := quic.VerifNewRouting()
+	w := c.w
+	var ops []*rOp
+	fails := map[string]bool{}
+	hist := func() string {
+		h := make([]string, len(ops))
+		for i, o := range ops {
+			h[i] = o.human()
+		}
+		return strings.Join(h, "; ")
+	}
+	fail := func(key, desc string) {
+		if !fails[key] {
+			fails[key] = true
+			fmt.Fprintf(w, "MONFAIL\tconnids/route/%s\t%s\t%s\n", key, desc, hist())
+		}
+	}
+	pool := make([][]byte, 7)
+	for i := range pool {
+		pool[i] = append([]byte{byte(0x10 + i)}, r.Bytes(3)...)
+	}
+	foreign := []byte{0xff, 0xee, 0xdd, 0xcc}
+	pick := func() []byte { return pool[r.Intn(len(pool))] }
+	// shadow (model independent)
+	now := int64(0)
+	everAdded := map[string]bool{}
+	everClosed := map[string]bool{}     // appeared in some ReplaceWithClosed call
+	lastDeadline := map[string]int64{}  // latest now+expiry over all ReplaceWithClosed calls naming the ID
+	liveExpect := map[string]int{}      // ID -> connection, for IDs never named by a ReplaceWithClosed
+	delivered := map[int]int{}          // local stand-in -> packets delivered to it
+	nReplace, nDeliver, nExpired := 0, 0, 0
+	nops := r.Range(8, 40)
+	for i := 0; i < nops; i++ {
+		o := &rOp{}
+		x := r.Intn(100)
+		switch {
+		case x < 18:
+			o.kind, o.cid, o.n = "add", pick(), r.Range(1, 3)
+			pk, pr := v.Lookup(o.cid)
+			o.flag = v.Add(o.cid, o.n)
+			if ak, ar := v.Lookup(o.cid); pk != 0 && (o.flag || ak != pk || ar != pr) {
+				fail("add-overwrites", fmt.Sprintf("Add(%x) for an ID that is already routed returned %v and maps it to kind %d/%d (was %d/%d)", o.cid, o.flag, ak, ar, pk, pr))
+			} else if pk == 0 && (!o.flag || ak != 1 || ar != o.n) {
+				fail("add-lost", fmt.Sprintf("Add(%x) for a free ID returned %v and maps it to kind %d/%d", o.cid, o.flag, ak, ar))
+			}
+			everAdded[string(o.cid)] = true
+			if o.flag && !everClosed[string(o.cid)] {
+				liveExpect[string(o.cid)] = o.n
+			}
+		case x < 24:
+			o.kind, o.cid, o.cid2, o.n = "addwith", pick(), pick(), r.Range(1, 3)
+			o.flag = v.AddWithConnID(o.cid, o.cid2, o.n)
+			everAdded[string(o.cid)], everAdded[string(o.cid2)] = true, true
+			if o.flag {
+				for _, k := range []string{string(o.cid), string(o.cid2)} {
+					if !everClosed[k] {
+						liveExpect[k] = o.n
+					}
+				}
+			}
+		case x < 32:
+			o.kind, o.cid = "remove", pick()
+			v.Remove(o.cid)
+			delete(liveExpect, string(o.cid))
+		case x < 46:
+			o.kind, o.local, o.d = "replace", r.Bool(), r.Pick(5, 15, 15, 35, 105) // never due exactly at an observation time (multiples of 10)
+			k := r.Range(0, 4)
+			seen := map[string]bool{}
+			for j := 0; j < k; j++ {
+				b := pick()
+				if !seen[string(b)] || r.Chance(1, 5) {
+					o.ids = append(o.ids, b)
+				}
+				seen[string(b)] = true
+			}
+			v.ReplaceWithClosed(o.ids, o.local, o.d)
+			nReplace++
+			for _, b := range o.ids {
+				everAdded[string(b)], everClosed[string(b)] = true, true
+				delete(liveExpect, string(b))
+				if dl := now + o.d; dl > lastDeadline[string(b)] || lastDeadline[string(b)] == 0 {
+					lastDeadline[string(b)] = dl
+				}
+			}
+		case x < 62:
+			o.kind, o.d = "advance", r.Pick(0, 10, 10, 20, 30, 40, 100)
+			time.Sleep(time.Duration(o.d))
+			now += o.d
+		case x < 68:
+			o.kind, o.tok, o.n = "addtok", tokOf(uint64(700+r.Intn(4))), r.Range(1, 3)
+			v.AddResetToken(o.tok, o.n)
+		case x < 72:
+			o.kind, o.tok = "remtok", tokOf(uint64(700+r.Intn(4)))
+			v.RemoveResetToken(o.tok)
+		default:
+			o.kind, o.cid = "deliver", pick()
+			if r.Chance(1, 12) {
+				o.cid = foreign
+			}
+			o.rk, o.ref, o.sent = v.Deliver(o.cid)
+			nDeliver++
+			// back-off of the stand-ins: CONNECTION_CLOSE again for packet 1, 2, 4, 8, ... only
+			switch o.rk {
+			case 2:
+				delivered[o.ref]++
+				k := delivered[o.ref]
+				want := 0
+				if k&(k-1) == 0 {
+					want = 1
+				}
+				if o.sent != want {
+					fail("backoff", fmt.Sprintf("packet %d for a locally closed connection queued %d CONNECTION_CLOSE copies, want %d", k, o.sent, want))
+				}
+			case 1, 3, 0:
+				if o.sent != 0 {
+					fail("backoff", "CONNECTION_CLOSE retransmitted for a connection that was not closed locally")
+				}
+			}
+			if o.rk != 0 && !everAdded[string(o.cid)] {
+				fail("foreign-routed", fmt.Sprintf("packet for foreign connection ID %x reached a handler", o.cid))
+			}
+			if n, ok := liveExpect[string(o.cid)]; ok && (o.rk != 1 || o.ref != n) {
+				fail("live-misrouted", fmt.Sprintf("packet for %x of connection %d went to kind %d/%d", o.cid, n, o.rk, o.ref))
+			}
+		}
+		synctest.Wait()
+		o.routes, o.toks, o.tokC = v.Snapshot()
+		ops = append(ops, o)
+		// (e) no closed stand-in survives the end of its (latest) closing period
+		for _, rt := range o.routes {
+			if rt.Kind == 2 || rt.Kind == 3 {
+				if dl, ok := lastDeadline[string(rt.CID)]; !ok || dl <= now {
+					fail("closed-not-expired", fmt.Sprintf("%x still maps to a closed connection at %dns, closing period ended at %dns", rt.CID, now, dl))
+				}
+			}
+			if rt.Kind == 9 {
+				fail("unknown-handler", "unknown handler type in the map")
+			}
+			if !everAdded[string(rt.CID)] {
+				fail("foreign-routed", fmt.Sprintf("never added connection ID %x is routed", rt.CID))
+			}
+		}
+		for k, n := range liveExpect {
+			found := false
+			for _, rt := range o.routes {
+				if string(rt.CID) == k && rt.Kind == 1 && rt.Ref == n {
+					found = true
+				}
+			}
+			if !found {
+				fail("live-misrouted", fmt.Sprintf("connection ID %x of connection %d is not routed to it", k, n))
+			}
+		}
+	}
+	// let every closing period end: nothing closed may remain
+	time.Sleep(200 * time.Nanosecond)
+	synctest.Wait()
+	fin := &rOp{kind: "advance", d: 200}
+	fin.routes, fin.toks, fin.tokC = v.Snapshot()
+	ops = append(ops, fin)
+	for _, rt := range fin.routes {
+		if rt.Kind != 1 {
+			fail("closed-not-expired", fmt.Sprintf("%x still maps to a closed connection after all closing periods", rt.CID))
+		}
+	}
+	for _, o := range ops {
+		if o.kind == "replace" {
+			nExpired++
+		}
+	}
+	items := make([]string, len(ops))
+	for i, o := range ops {
+		items[i] = u.Pair(o.coqOp(), o.coqObs())
+	}
+	nt := 0
+	if nReplace > 0 && nDeliver > 0 {
+		nt = 1
+	}
+	fmt.Fprintf(w, "CASE %d %s\n", nt, u.App("RouteCase", u.List(items)))
+	c.dist["route/cases"]++
+	c.dist["route/ops"] += len(ops)
+	c.dist["route/replace-with-closed"] += nReplace
+	c.dist["route/packets"] += nDeliver
 }
